@@ -14,6 +14,8 @@ import (
 	"fmt"
 	"io/ioutil"
 	"math/rand"
+	"net"
+	"net/http"
 	"os"
 	"path/filepath"
 	"sort"
@@ -25,6 +27,7 @@ import (
 	"time"
 
 	"github.com/openebs/jiva/replica"
+	replicaClient "github.com/openebs/jiva/replica/client"
 	jsync "github.com/openebs/jiva/sync"
 	"github.com/openebs/jiva/types"
 	"github.com/openebs/sparse-tools/sparse"
@@ -1130,7 +1133,132 @@ func (d *drv) runRebuild(do func(Op)) {
 	do(d.genRead(true))
 }
 
+// runCleanerLoop runs the REAL background cleaner (sync.Task.InternalSnapshotCleaner: timer,
+// checkpoint comparison, retention count, prepare -> coalesce -> remove) against a stub
+// controller (GET /v1/checkpoint) and a stub sync agent (the fold request).  The stub agent is
+// where the driver observes the intermediate states: when the fold request arrives the cleaner
+// goroutine is blocked in it, so the state after PrepareRemoveDisk can be recorded; the agent
+// then either folds (sparse.FoldFile, what sfold does) or reports a failure; after the reply
+// the cleaner's next step (RemoveDiffDisk, or nothing) is awaited and recorded.
+var theSeed int64
+
+func (d *drv) runCleanerLoop(id int, failFold bool) error {
+	jsync.SnapshotRetentionCount = 2
+	if err := d.start(Scenario{ID: id, NB: 4, Punch: true, Src: fmt.Sprintf("cleanerloop:foldfail=%v:seed=%d", failFold, theSeed)}); err != nil {
+		return err
+	}
+	defer d.finish()
+	do := func(op Op) { d.exec(op) }
+	// stub sync agent on port Q; the replica client derives it from the replica address (port Q-2)
+	al, err := net.Listen("tcp", "127.0.0.1:0")
+	if err != nil {
+		return err
+	}
+	defer al.Close()
+	aport := al.Addr().(*net.TCPAddr).Port
+	cl, err := net.Listen("tcp", "127.0.0.1:0")
+	if err != nil {
+		return err
+	}
+	defer cl.Close()
+	cport := cl.Addr().(*net.TCPAddr).Port
+	type foldReq struct{ src, dst string }
+	folds := make(chan foldReq, 4)
+	proceed := make(chan bool, 4)
+	amux := http.NewServeMux()
+	reply := func(w http.ResponseWriter, code int) {
+		json.NewEncoder(w).Encode(map[string]interface{}{"id": "1", "type": "process", "exitCode": code,
+			"links": map[string]string{"self": fmt.Sprintf("http://127.0.0.1:%d/v1/processes/1", aport)}})
+	}
+	lastCode := 0
+	amux.HandleFunc("/v1/processes", func(w http.ResponseWriter, r *http.Request) {
+		var p struct {
+			ProcessType string `json:"processType"`
+			SrcFile     string `json:"srcFile"`
+			DestFile    string `json:"destfile"`
+		}
+		json.NewDecoder(r.Body).Decode(&p)
+		folds <- foldReq{p.SrcFile, p.DestFile}
+		ok := <-proceed
+		lastCode = 0
+		if !ok {
+			lastCode = 1
+		}
+		reply(w, lastCode)
+	})
+	amux.HandleFunc("/v1/processes/1", func(w http.ResponseWriter, r *http.Request) { reply(w, lastCode) })
+	go http.Serve(al, amux)
+	cpName := ""
+	cmux := http.NewServeMux()
+	cmux.HandleFunc("/v1/checkpoint", func(w http.ResponseWriter, r *http.Request) {
+		json.NewEncoder(w).Encode(map[string]interface{}{"type": "checkpoint", "snapshot": cpName})
+	})
+	go http.Serve(cl, cmux)
+	repClient, err := replicaClient.NewReplicaClient(fmt.Sprintf("tcp://127.0.0.1:%d", aport-2))
+	if err != nil {
+		return err
+	}
+	task := jsync.NewTask(fmt.Sprintf("http://127.0.0.1:%d", cport))
+	go task.InternalSnapshotCleaner(d.s, repClient) // its 60 s timer starts now
+
+	// a chain with three candidates below the checkpoint
+	rng := d.rng
+	for i := 1; i <= 5; i++ {
+		do(d.genWrite(rng.Intn(2) == 0))
+		if rng.Intn(2) == 0 {
+			do(d.genWrite(false))
+		}
+		do(Op{Ev: "Snapshot", Name: fmt.Sprintf("c%d", i), User: false})
+	}
+	do(d.genWrite(false))
+	do(Op{Ev: "SetCheckpoint", Name: "s-c5"})
+	cpName = rawfs.Real("s-c5")
+	do(d.genRead(true))
+	do(Op{Ev: "CleanerPick"})
+	select {
+	case fr := <-folds:
+		victim := rawfs.Norm(fr.src)
+		// the cleaner is waiting for the agent: the state after its PrepareRemoveDisk
+		d.emit("PrepareRemove", map[string]interface{}{"name": victim, "bare": false}, nil, nil, nil)
+		if failFold {
+			proceed <- false
+			time.Sleep(2500 * time.Millisecond) // whatever the cleaner does after a failed merge has happened by now
+			d.emit("CleanerIdle", map[string]interface{}{"after": "failed-coalesce", "name": victim}, nil, nil, nil)
+		} else {
+			ferr := sparse.FoldFile(filepath.Join(d.dir, fr.src), filepath.Join(d.dir, fr.dst), foldOps{})
+			d.emit("Coalesce", map[string]interface{}{"name": victim}, ferr, nil, nil)
+			proceed <- ferr == nil
+			gone := false
+			for i := 0; i < 400 && !gone; i++ {
+				time.Sleep(50 * time.Millisecond)
+				gone = true
+				for _, n := range d.chain() {
+					if n == victim {
+						gone = false
+					}
+				}
+			}
+			time.Sleep(1200 * time.Millisecond) // RemoveDiffDisk drains the hole queue (about 1 s) under the server lock
+			if gone {
+				d.emit("RemoveDisk", map[string]interface{}{"name": victim}, nil, nil, nil)
+			} else {
+				d.emit("CleanerIdle", map[string]interface{}{"after": "coalesce", "name": victim}, nil, nil, nil)
+			}
+		}
+	case <-time.After(75 * time.Second):
+		d.emit("CleanerIdle", map[string]interface{}{"after": "no-round"}, nil, nil, nil)
+	}
+	do(d.genRead(true))
+	do(d.genWrite(true))
+	do(d.genRead(true))
+	do(Op{Ev: "Close"})
+	do(Op{Ev: "Open"})
+	do(d.genRead(true))
+	return nil
+}
+
 func main() {
+	cleanerLoop := flag.Int("cleanerloop", 0, "run N rounds of the real background cleaner (odd ids: the merge fails)")
 	in := flag.String("in", "", "scenario file (ndjson)")
 	gen := flag.Int("gen", 0, "number of scenarios to generate")
 	genLen := flag.Int("len", 12, "operations per generated scenario")
@@ -1158,6 +1286,7 @@ func main() {
 
 	go replica.CreateHoles()
 
+	theSeed = *seed
 	d := &drv{dir: filepath.Join(*work, "vol"), w: w, rng: rand.New(rand.NewSource(*seed))}
 	go d.watchdog()
 	if *in != "" {
@@ -1186,6 +1315,12 @@ func main() {
 				d.exec(op)
 			}
 			d.finish()
+		}
+	}
+	for i := 0; i < *cleanerLoop; i++ {
+		if err := d.runCleanerLoop(*base+i, (*base+i)%2 == 1); err != nil {
+			fmt.Fprintln(os.Stderr, "HARNESS-ERROR: cleaner loop:", err)
+			os.Exit(2)
 		}
 	}
 	for i := 0; i < *gen; i++ {
